@@ -320,9 +320,92 @@ func fbOK(fb *functionBuilder) bool {
 //@ func flattenIntegerKind
 //@   props C20 C01
 //@   ensures result != reflect.Int && result != reflect.Uint && result != reflect.Uintptr && result != reflect.Bool
-//@   ensures k == reflect.Int ==> result == reflect.Int64
+//@   ensures k == reflect.Int || k == reflect.Bool ==> result == reflect.Int64
 //@   ensures k == reflect.Uint || k == reflect.Uintptr ==> result == reflect.Uint64
 //@   ensures k != reflect.Int && k != reflect.Uint && k != reflect.Uintptr && k != reflect.Bool ==> result == k
+
+// Arithmetic instructions (C01): the instruction appended carries the operands
+// given, the operation for the kind (negated for a constant operand), and, for
+// the generic form, the flattened kind in operand A - which is what the VM
+// clause (internal/runtime contract file) switches on.
+func specLast(fb *functionBuilder) runtime.Instruction { return fb.fn.Body[len(fb.fn.Body)-1] }
+
+func specOp(op runtime.Operation, k bool) runtime.Operation {
+	if k {
+		return -op
+	}
+	return op
+}
+
+//@ func (*functionBuilder).emitAdd
+//@   props C01
+//@   panics allowed
+//@   requires fbOK(fb)
+//@   ensures len(fb.fn.Body) == old(len(fb.fn.Body))+1
+//@   ensures kind != reflect.Int && kind != reflect.Float64 ==> specLast(fb).Op == specOp(runtime.OpAdd, k) && specLast(fb).A == int8(flattenIntegerKind(kind)) && specLast(fb).B == y && specLast(fb).C == z
+//@   ensures kind == reflect.Int ==> specLast(fb).Op == specOp(runtime.OpAddInt, k) && specLast(fb).A == old(x) && specLast(fb).B == y && specLast(fb).C == z
+
+//@ func (*functionBuilder).emitSub
+//@   props C01
+//@   panics allowed
+//@   requires fbOK(fb)
+//@   ensures len(fb.fn.Body) == old(len(fb.fn.Body))+1
+//@   ensures kind != reflect.Int && kind != reflect.Float64 ==> specLast(fb).Op == specOp(runtime.OpSub, k) && specLast(fb).A == int8(flattenIntegerKind(kind)) && specLast(fb).B == y && specLast(fb).C == z
+//@   ensures kind == reflect.Int ==> specLast(fb).Op == specOp(runtime.OpSubInt, k) && specLast(fb).A == old(x) && specLast(fb).B == y && specLast(fb).C == z
+
+//@ func (*functionBuilder).emitSubInv
+//@   props C01
+//@   panics allowed
+//@   requires fbOK(fb)
+//@   ensures len(fb.fn.Body) == old(len(fb.fn.Body))+1
+//@   ensures kind != reflect.Int && kind != reflect.Float64 ==> specLast(fb).Op == specOp(runtime.OpSubInv, k) && specLast(fb).A == int8(flattenIntegerKind(kind)) && specLast(fb).B == y && specLast(fb).C == z
+//@   ensures kind == reflect.Int ==> specLast(fb).Op == specOp(runtime.OpSubInvInt, k) && specLast(fb).A == old(x) && specLast(fb).B == y && specLast(fb).C == z
+
+//@ func (*functionBuilder).emitMul
+//@   props C01
+//@   panics allowed
+//@   requires fbOK(fb)
+//@   ensures len(fb.fn.Body) == old(len(fb.fn.Body))+1
+//@   ensures kind != reflect.Int && kind != reflect.Float64 ==> specLast(fb).Op == specOp(runtime.OpMul, ky) && specLast(fb).A == int8(flattenIntegerKind(kind)) && specLast(fb).B == y && specLast(fb).C == z
+//@   ensures kind == reflect.Int ==> specLast(fb).Op == specOp(runtime.OpMulInt, ky) && specLast(fb).A == old(x) && specLast(fb).B == y && specLast(fb).C == z
+
+//@ func (*functionBuilder).emitDiv
+//@   props C01
+//@   panics allowed
+//@   requires fbOK(fb)
+//@   ensures len(fb.fn.Body) == old(len(fb.fn.Body))+1
+//@   ensures kind != reflect.Int && kind != reflect.Float64 ==> specLast(fb).Op == specOp(runtime.OpDiv, ky) && specLast(fb).A == int8(flattenIntegerKind(kind)) && specLast(fb).B == y && specLast(fb).C == z
+//@   ensures kind == reflect.Int ==> specLast(fb).Op == specOp(runtime.OpDivInt, ky) && specLast(fb).A == old(x) && specLast(fb).B == y && specLast(fb).C == z
+
+//@ func (*functionBuilder).emitRem
+//@   props C01
+//@   panics allowed
+//@   requires fbOK(fb)
+//@   ensures len(fb.fn.Body) == old(len(fb.fn.Body))+1
+//@   ensures kind != reflect.Int ==> specLast(fb).Op == specOp(runtime.OpRem, ky) && specLast(fb).A == int8(flattenIntegerKind(kind)) && specLast(fb).B == y && specLast(fb).C == z
+//@   ensures kind == reflect.Int ==> specLast(fb).Op == specOp(runtime.OpRemInt, ky) && specLast(fb).A == old(x) && specLast(fb).B == y && specLast(fb).C == z
+
+//@ func (*functionBuilder).emitShl
+//@   props C01
+//@   panics allowed
+//@   requires fbOK(fb)
+//@   ensures len(fb.fn.Body) == old(len(fb.fn.Body))+1
+//@   ensures kind != reflect.Int ==> specLast(fb).Op == specOp(runtime.OpShl, k) && specLast(fb).A == int8(flattenIntegerKind(kind)) && specLast(fb).B == y && specLast(fb).C == z
+//@   ensures kind == reflect.Int ==> specLast(fb).Op == specOp(runtime.OpShlInt, k) && specLast(fb).A == old(x) && specLast(fb).B == y && specLast(fb).C == z
+
+//@ func (*functionBuilder).emitShr
+//@   props C01
+//@   panics allowed
+//@   requires fbOK(fb)
+//@   ensures len(fb.fn.Body) == old(len(fb.fn.Body))+1
+//@   ensures kind != reflect.Int ==> specLast(fb).Op == specOp(runtime.OpShr, k) && specLast(fb).A == int8(flattenIntegerKind(kind)) && specLast(fb).B == y && specLast(fb).C == z
+//@   ensures kind == reflect.Int ==> specLast(fb).Op == specOp(runtime.OpShrInt, k) && specLast(fb).A == old(x) && specLast(fb).B == y && specLast(fb).C == z
+
+//@ func (*functionBuilder).emitNeg
+//@   props C01
+//@   requires fbOK(fb)
+//@   ensures len(fb.fn.Body) == old(len(fb.fn.Body))+1
+//@   ensures specLast(fb).Op == runtime.OpNeg && specLast(fb).A == int8(flattenIntegerKind(kind)) && specLast(fb).B == y && specLast(fb).C == z
 
 // ---------------------------------------------------------------------------
 // lexer.go (C04: no panic, termination; C21: byte offsets)
